@@ -82,6 +82,17 @@ class Closure:
         self.body = body
 
 
+BODIES = []          # loop bodies, hoisted into named definitions sig_body_<k> (see generate())
+MAX_BODIES = 16
+
+
+def hoist(ir):
+    BODIES.append(ir)
+    if len(BODIES) > MAX_BODIES:
+        bad('more than %d loops' % MAX_BODIES)
+    return 'sig_body_%d' % len(BODIES)
+
+
 class Tr:
     def __init__(self, prefix):
         self.prefix = prefix
@@ -137,7 +148,7 @@ class Tr:
             if isinstance(e.value, int):
                 return 'EInt (%d)' % e.value, 'int'
             if isinstance(e.value, str):
-                return 'EStr [%s]%%N' % '; '.join(str(ord(c)) for c in e.value), 'str'
+                return 'EText [%s]%%N' % '; '.join(str(ord(c)) for c in e.value), 'str'
             bad('constant', e)
         if isinstance(e, ast.Name):
             ent = self.lookup(scope, e.id, e)
@@ -163,12 +174,12 @@ class Tr:
             if (t, e.attr) not in FIELDS:
                 bad('attribute .%s of a value of type %r' % (e.attr, t), e)
             f, rt = FIELDS[(t, e.attr)]
-            return 'EAttr (%s) %s' % (o, f), rt
+            return 'EField (%s) %s' % (o, f), rt
         if isinstance(e, ast.BinOp) and isinstance(e.op, (ast.Add, ast.Sub)):
             a, ta = self.expr(e.left, scope)
             b, tb = self.expr(e.right, scope)
             if ta == 'int' and tb == 'int':
-                return '%s (%s) (%s)' % ('EAdd' if isinstance(e.op, ast.Add) else 'ESub', a, b), 'int'
+                return '%s (%s) (%s)' % ('EAdd' if isinstance(e.op, ast.Add) else 'EMinus', a, b), 'int'
             if isinstance(e.op, ast.Add) and isinstance(ta, tuple) and ta[0] == 'list' and ta == tb:
                 return 'EAdd (%s) (%s)' % (a, b), ta
             bad('operands of + / -', e)
@@ -297,7 +308,7 @@ class Tr:
                 if not (isinstance(nm, ast.Constant) and nm.value == 'posonlyargs' and t == 'arguments'
                         and isinstance(dflt, ast.Tuple) and not dflt.elts):
                     bad('getattr()', e)
-                return 'EAttr (%s) FPosonly' % o, ('list', 'arg')
+                return 'EField (%s) FPosonly' % o, ('list', 'arg')
             if n == 'cast' and len(e.args) == 2 and not kw:
                 return self.expr(e.args[1], scope)
             if n in ('_ValueFormatter', '_AnnotationValueFormatter') and len(e.args) == 1 and set(kw) == {'ctx'}:
@@ -520,7 +531,7 @@ class Tr:
             src, et = self.source(s.iter, scope)
             p, ents = self.pattern(s.target, et, scope, tag)
             body = self.prods(s.body, dict(scope, **ents), lambda sc: 'QNil', tag, types, in_gen)
-            return 'QFor (%s) (%s) (%s) (%s)' % (p, src, body, nxt(scope))
+            return 'QFor (%s) (%s) %s (%s)' % (p, src, hoist(body), nxt(scope))
         if isinstance(s, ast.If):
             c = self.cond(s.test, scope)
             th = self.prods(s.body, dict(scope), lambda sc: 'QNil', tag, types, in_gen)
@@ -542,7 +553,7 @@ class Tr:
                 src, et = self.source(v.value, scope)
                 t = self.newvar('item', tag)
                 types.append(et)
-                return 'QFor (PVar %s) (%s) (QEmit (EVar %s) QNil) (%s)' % (t, src, t, nxt(scope))
+                return 'QFor (PVar %s) (%s) %s (%s)' % (t, src, hoist('QEmit (EVar %s) QNil' % t), nxt(scope))
             if isinstance(v, ast.Call):
                 f = v.func
                 if (isinstance(f, ast.Attribute) and f.attr == 'append' and isinstance(f.value, ast.Name) and not in_gen
@@ -619,7 +630,7 @@ def translate_annotations(fn):
             if tk != 'str' or tv not in ('optexpr', 'expr', 'none'):
                 bad('key/value of the mapping', ret)
             holder['kind'] = 'comp'
-            return 'QFor (%s) (%s) (QEmit (ETuple (XCons (%s) (XCons (%s) XNil))) QNil) QNil' % (p, src, k, v)
+            return 'QFor (%s) (%s) %s QNil' % (p, src, hoist('QEmit (ETuple (XCons (%s) (XCons (%s) XNil))) QNil' % (k, v)))
         bad('value returned by _annotations_from_function', ret)
     ir = tr.prods(body[:-1], scope, cont, '', types)
     return tr, ir, fv
@@ -662,8 +673,11 @@ def generate() -> dict:
     src = Path(inspect.getsourcefile(astbuilder)).read_text()
     tree = ast.parse(src)
     V = find_class(tree, 'ModuleVistor')
+    del BODIES[:]
     tra, ann, fv = translate_annotations(find_method(V, '_annotations_from_function'))
     trp, par, nv = translate_parameters(find_method(V, '_handleFunctionDef'))
+    def wrap(t):
+        return textwrap.fill(t, 116, initial_indent='  ', subsequent_indent='  ', break_long_words=False, break_on_hyphens=False)
     lines = ['From Coq Require Import ZArith NArith List.', 'Import ListNotations.',
              'From PydoctorVerif Require Import Base.Sexp Spec.SigStr Model.Sig Model.SigIR.', 'Local Open Scope Z_scope.', '']
     for tr in (tra, trp):
@@ -671,8 +685,13 @@ def generate() -> dict:
             lines.append('Notation %s := (%d%%N) (only parsing).' % (name, i))
         lines.append('')
 
-    def wrap(t):
-        return textwrap.fill(t, 116, initial_indent='  ', subsequent_indent='  ', break_long_words=False, break_on_hyphens=False)
+    lines.append('(* the bodies of the loops, in the order the translator met them (a loop body can only be run on an element:')
+    lines.append('   Proofs/SigIRProofs.v keeps these names folded until the loop has been fused with what it iterates over);')
+    lines.append('   unused names are padded with QNil so that the proof script can mention all of them *)')
+    for k in range(MAX_BODIES):
+        lines.append('Definition sig_body_%d : prods :=' % (k + 1))
+        lines.append(wrap(BODIES[k] if k < len(BODIES) else 'QNil') + '.')
+    lines.append('')
     lines.append('(* ModuleVistor._annotations_from_function(self, func) *)')
     lines.append('Definition code_annotations : prods :=')
     lines.append(wrap(ann) + '.')
